@@ -12,6 +12,7 @@ import (
 	"os"
 	"path/filepath"
 	"sort"
+	"sync"
 	"time"
 
 	"entgo.io/ent/dialect"
@@ -71,6 +72,8 @@ func freePort() (int, error) {
 	return l.Addr().(*net.TCPAddr).Port, nil
 }
 
+var migrateMu sync.Mutex
+
 var loggingOnce = false
 
 func quietLogging() {
@@ -96,7 +99,11 @@ func OpenDB(path string) (*sql.DB, *ent.Client, error) {
 	if err := conn.Ping(); err != nil {
 		return nil, nil, err
 	}
-	if err := db.MigrateUpEnt(context.Background(), client.Schema); err != nil {
+	// ent's schema migration mutates package-level table descriptions
+	migrateMu.Lock()
+	err = db.MigrateUpEnt(context.Background(), client.Schema)
+	migrateMu.Unlock()
+	if err != nil {
 		return nil, nil, err
 	}
 	return conn, client, nil
